@@ -64,6 +64,15 @@ def run(ctx):
     facts, res, bad = schedule_part(ctx, "C09", PROGRAMS_QUICK)
     from vlib.props import c08
     c08.cow_class_sweep(ctx, "C09", ops=("unwrap_or_clone",))
+    # the racing programs natively, real threads, with the crate's debug assertions ON (the build a client's `cargo test` uses):
+    # "otherwise the very same handle comes back" also when the other owner lets go while the gate is declining
+    nat = miri.run_native(ctx, ["try_unwrap_vs_drop", "try_unique_vs_drop", "racing_try_unwrap_2t", "unwrap_or_clone_vs_drop"], rounds=3000, timeout_s=120, debug_assertions=True)
+    nbad = miri.failing(nat)
+    ctx.coverage["native_debug_assertions"] = miri.status_counts(nat)
+    ctx.oblige("litmus:native-with-debug-assertions", not nbad, "%d failing" % len(nbad))
+    if nbad:
+        r = nbad[0]
+        ctx.violation("native", "\n".join(["failing input: litmus program `%s` run natively (%d rounds, real threads, debug assertions on):" % (r["program"], r.get("rounds", 0)), "  replay: " + r["cmd"], r["report"]]), True)
     histcheck.run(ctx, MODULE, WEIGHTS, TAGS, lean_extra=EXTRA)
     # "... and the allocation is released": over every payload shape (size not a multiple of the word, over-aligned, ZST)
     from vlib import layout_corr
